@@ -375,6 +375,16 @@ func genC14(r *Rng, tier string, idx int) *Program {
 
 func runC14(t testingT, p *Program) *Result {
 	return RunHIST(t, p, func(e *Env) {
+		// between litestream operations litestream holds at most its read
+		// transaction: an application write issued then (not interposed inside an
+		// operation, the application holding no transaction of its own) must not
+		// meet SQLITE_BUSY - it would not without litestream
+		e.AfterOp = func(e *Env, i int, op *Op, res string) *Violation {
+			if op.Kind == "app" && op.Step != nil && op.Step.K == "txn" && !e.App.holding && strings.HasPrefix(res, "busy") {
+				return e.fail("app-locked-out", "an application transaction issued while no litestream operation was in progress failed with SQLITE_BUSY (op %d): litestream keeps a write lock between operations", i)
+			}
+			return nil
+		}
 		e.AtEnd = func(e *Env) *Violation {
 			// stop litestream (if still up) so the source is quiescent
 			if e.LS != nil {
